@@ -615,10 +615,10 @@ def c2s(ctx, n, big):
                         'with_batch_merge': sum(1 for h in hs if h['feats']['batch']),
                         're_merges': sum(h['feats']['again'] for h in hs),
                         'snapshot_replays': sum(h['feats']['replay'] for h in hs)}
-    h = hs[len(hs) // 2]
-    ctx.sample({'c2s_history': {'id': h['id'], 'feats': h['feats'],
-                                'events': [{k: (v if k not in ('v', 'res', 'rows') else v[:4] + (['...'] if len(v) > 4 else []))
-                                            for k, v in e.items()} for e in h['events'][:5]]}})
+    for h in [hs[len(hs) // 2]] + [x for x in hs if x['feats']['written'] == 'zones'][:1]:
+        ctx.sample({'c2s_history': {'id': h['id'], 'feats': h['feats'],
+                                    'events': [{k: (v if k not in ('v', 'res', 'rows') else v[:4] + (['...'] if len(v) > 4 else []))
+                                                for k, v in e.items()} for e in h['events'][:5]]}})
 
 
 class _one_worker(object):
@@ -634,8 +634,14 @@ class _one_worker(object):
 def run(ctx):
     ctx.rule = ('S2C: every state of TLC\'s history tree (exhaustive small universes + simulated deeper ones) = one more '
                 'bi_merge on the real store, then bi_read at every read time x what in {-1, 0}, compared with the outcome the '
-                'law prints; C2S: random histories (20-60 dates, 4-12 publications, shared stamps, > 16 rows) recorded and '
-                'judged by Trace_Bitemporal. Non-trivial = the history shows more than two different as-of pictures over '
+                'law prints; the stamps and read times are WRITTEN TIMES <<wall, zone>> (instant = wall - zone, decided in TLA+): '
+                'gen5/6/7 enumerate every stamp and every T in zones east and west of each other, mixed in one history; gen8 adds '
+                'a replay of an earlier snapshot of the store (bi_merge(store, older copy)) anywhere in a history, gen2 the single '
+                're-merge of an older version followed by a reverting publication. The driver realises a written time as '
+                'datetime / Timestamp / numpy datetime64 (us, ns) / ISO string / datetime.date (midnights), naive or aware through '
+                'five zone libraries. C2S: random histories (20-60 dates, 4-12 publications, shared stamps, > 16 rows, re-merges, '
+                'snapshot replays; 4 of 7 timezone-aware with a zone per stamp / read) recorded and '
+                'judged by Trace_Bitemporal from the written times. Non-trivial = the history shows more than two different as-of pictures over '
                 'the read times (so revisions are visible and look-ahead would be detectable); distinct by history.')
     q = ctx.quick
     # --- MC -----------------------------------------------------------------------------------
@@ -677,9 +683,17 @@ def run(ctx):
     c2s(ctx, 160 if q else 1500, not q)
     ctx.exhaustive = False
     ctx.assumptions += [
-        'small scope: MC over <= 2 dates x 4 stamps x {1, 2, NaN} x <= 3 (thorough 4) publications, 1 date deeper, 3 dates shallower; '
+        'small scope: MC over <= 2 dates x 4 stamps x {1, 2, NaN} x <= 3 (thorough 4) publications, 1 date deeper, 3 dates shallower, 1 date x 3 stamps x 2 (thorough 3) zones x 3 (4) publications; '
         'S2C exhaustive for the gen1/gen2 universes, sampled (TLC -simulate) for 3 dates x 4 stamps x <= 4 publications',
-        'dates, stamps and read times are integers in the specification; the driver maps them to datetimes by strictly increasing maps',
+        'dates and instants are integers in the specification; the driver maps them to datetimes by strictly increasing (for written '
+        'times: affine) maps - units of 13 h, 24 h (midnights), 12 h (noon / midnight) without a zone, 5 h with zones UTC-10 .. UTC+10',
+        'realisations of instants: a stamp / read time is handed over as <<wall, zone>>; the law sees wall - zone only. Zones per history: '
+        'none (naive), UTC only, one zone away from UTC, or a different zone per stamp and per read; zone libraries: datetime.timezone, '
+        'zoneinfo Etc/GMT and city zones without DST, pytz.FixedOffset, dateutil.tzoffset (%s here). Naive and aware times are never mixed '
+        'in one history (Python refuses to order them: outside the domain); DST transitions are not modelled' % ', '.join(ZKIND_LIST),
+        'named deviation DateRefused: a read time given as datetime.date (not an instant) may be refused with an exception; when bi_read '
+        'answers, it must be the law at that midnight. Today every such read raises TypeError (pandas will not compare datetime64 with a date)',
+        'a replayed snapshot is cut out of the real store by the driver (rows stamped <= t); "already in the store" is checked against the real store',
         'cells are numbers in the specification (0 = NaN); the driver renders them by injective palettes of exactly representable floats '
         '(whole numbers; 1 + k 2^-20; 1000000 + k; 2^-(30 + k)) and the stamps either in the past or ahead of the wall clock (year 2101)',
         'what = 0 with several publications under the first stamp of a date: both readings of "first" are admitted (named deviation FirstPerStamp)',
